@@ -29,6 +29,9 @@ type c02Plan struct {
 	Lines     []string `json:"lines_head"`
 	N         int      `json:"lines"`
 	Chunk     int      `json:"client_write_chunk"`
+
+	Churn        []string `json:"unrelated_entries_added_and_removed,omitempty"`
+	ChurnAfterUs int      `json:"churn_after_us,omitempty"`
 }
 
 var c02Names = []string{
@@ -87,6 +90,13 @@ func scenC02(x *Exec) {
 		p.Lines = p.Lines[:10]
 	}
 	p.Chunk = []int{0, 1, 7, 100}[g.Pick(4)]
+	if g.Bool(0.4) {
+		// meanwhile an administrator adds and removes entries that match none of these lines
+		for i, n := 0, 1+g.Intn(3); i < n; i++ {
+			p.Churn = append(p.Churn, churnKinds[g.Pick(len(churnKinds))])
+		}
+		p.ChurnAfterUs = g.Intn(400)
+	}
 	x.Out.Sample = p
 	cfg.Horizon = 3 * time.Hour
 	prop := "C02"
@@ -146,6 +156,19 @@ func scenC02(x *Exec) {
 			s.Infra("dial: %v", err)
 			return
 		}
+		churnDone := len(p.Churn) == 0
+		if !churnDone {
+			s.Spawn("churn-admin", "admin", "relay1", func() {
+				simrt.Sleep(time.Duration(p.ChurnAfterUs) * time.Microsecond)
+				if err := unrelatedChurn(tbl, p.Churn); err != nil {
+					s.Probe("churn.removal_failed")
+					s.Logf("churn: %v", err)
+				}
+				s.Probe("c02.unrelated_entries_added_and_removed")
+				churnDone = true
+				cond.Broadcast()
+			})
+		}
 		payload := []byte(strings.Join(lines, "\n") + "\n")
 		for len(payload) > 0 {
 			n := len(payload)
@@ -159,6 +182,7 @@ func scenC02(x *Exec) {
 			payload = payload[n:]
 		}
 		c.Close()
+		cond.Wait(func() bool { return churnDone }, time.Now().Add(time.Minute))
 		simrt.Sleep(100 * time.Millisecond)
 		simrt.Quiesce()
 
